@@ -1,0 +1,1 @@
+//! Hooks for property C35 (empty unless needed).
